@@ -12,7 +12,8 @@ for slug in "$@"; do
   [ -f "$ch/patch.diff" ] || { echo "SEED $P change$i: no patch"; continue; }
   dest=$(grep -m1 -i 'where to put' $f | sed 's/.*[Ww]here to put it: *//' | awk '{print $1}' | tr -d '`')
   spec=$(grep -m1 -o -- '-p [a-z-]* --test [a-zA-Z0-9_]*' $f); crate=$(echo $spec | awk '{print $2}'); tn=$(echo $spec | awk '{print $4}')
-  conf=$("$VR/tools/confirm_seed.sh" /tmp/${SEED_PREFIX:-seed}-$P $ch "$dest" "$crate" "$tn" 2>&1 | grep CONFIRM | sed 's/CONFIRM //' | cut -c1-60 | tr '\n' ';')
+  extra=$(grep -m1 -i 'crates whose tests must stay green:' $f | sed 's/.*green: *//' | tr -d '`,' | tr ' ' '\n' | grep -v "^$crate\$" | tr '\n' ' ')
+  conf=$("$VR/tools/confirm_seed.sh" /tmp/${SEED_PREFIX:-seed}-$P $ch "$dest" "$crate" "$tn" $extra 2>&1 | grep CONFIRM | sed 's/CONFIRM //' | cut -c1-60 | tr '\n' ';')
   d="$VR/seeded/$P-$slug"; mkdir -p "$d"; cp $ch/patch.diff $ch/demo.rs $ch/notes.md "$d/"; [ -f $ch/demo_cargo_toml.diff ] && cp $ch/demo_cargo_toml.diff "$d/"
   out=$("$VR/tools/mutant_run.sh" $P "$d/patch.diff" quick 2>&1)
   res=$(echo "$out" | grep -o "rc=[0-9]* ([A-Za-z-]*)" | tail -1)
